@@ -164,6 +164,7 @@ def build():
                    ensures=[f"implies(not skip_self, result == lpre({G}, prune, self))", f"implies(skip_self, result == clpre({G}, prune, lkids(self)))"],
                    loops={1: Loop(inv=["out == done1"])},
                    note="the pre-order dfs with the class test (isinstance, or exact type) and the extra filter as filter"))
+    world.trusted_notes.append('filter / prune callbacks are pure functions of the node (apply_fn); get_child_nodes() == lkids(node); `children` is list(get_child_nodes())')
     return world, lib, reg, lemmas(lib, nv, dict(rev=rev, clpre=clpre, lpre=lpre, clpost=clpost, lpost=lpost, Bq=Bq, OFN=OFN, SR=SR, E=E))
 
 
